@@ -332,7 +332,23 @@ func H_C06a_Topo() {
 
 // ---- C19
 
+func popcount(x int) int {
+	n := 0
+	for ; x != 0; x &= x - 1 {
+		n++
+	}
+	return n
+}
+
+// compare runs the whole query block twice: the second pass sees the graph
+// right after every query of the first (a failed TopologicalSort, CalculateDepths,
+// the cycle check) - no query may change what another query answers.
 func compare(g *graph.DependencyGraph, m *model, step int) {
+	compareOnce(g, m, step)
+	compareOnce(g, m, step)
+}
+
+func compareOnce(g *graph.DependencyGraph, m *model, step int) {
 	n := m.n
 	cnt := 0
 	for i := 0; i < n; i++ {
@@ -347,9 +363,15 @@ func compare(g *graph.DependencyGraph, m *model, step int) {
 		id := pool[i]
 		has := m.nodes&(1<<i) != 0
 		vrt.Assert(g.HasNode(id.t, id.key, id.group) == has, "C19.hasnode", "HasNode differs at step", step, i)
-		vrt.Assert((g.GetNode(id.t, id.key, id.group) != nil) == has, "C19.getnode", step, i)
+		nd0 := g.GetNode(id.t, id.key, id.group)
+		vrt.Assert((nd0 != nil) == has, "C19.getnode", step, i)
 		if !has {
 			continue
+		}
+		if nd0 != nil {
+			// the node's exported degree counters agree with its edges
+			vrt.Assert(nd0.OutDegree == popcount(m.out[i]), "C19.outdegree", "OutDegree of node", i, "is", nd0.OutDegree, "model", popcount(m.out[i]), "step", step)
+			vrt.Assert(nd0.InDegree == popcount(m.dependents(i)), "C19.indegree", "InDegree of node", i, "is", nd0.InDegree, "model", popcount(m.dependents(i)), "step", step)
 		}
 		d, dup := keysMask(g.GetDependencies(id.t, id.key, id.group))
 		vrt.Assert(!dup && d == m.out[i], "C19.dependencies", "GetDependencies differs at step", step, i, d, m.out[i])
